@@ -310,6 +310,14 @@ pub fn inorder_group_history() -> impl Strategy<Value = Input> {
                 let k = i as u32 + 1;
                 let last = k == n;
                 let mut s = Spec::simple(n, k, id.map(|x| x as u32), b"A", piece, if last { fill as u32 } else { fills[i % fills.len()] as u32 });
+                // header fields vary from fragment to fragment: the completed sentence must carry
+                // the last fragment's own
+                let v = cutsel[i % cutsel.len()] as usize ^ (zeros as usize) << 3;
+                s.channel = [&b"A"[..], b"B", b"", b"1", b"AB"][(v >> 2) % 5].to_vec();
+                s.addr = [*b"AIVDM", *b"AIVDO", *b"BSVDM", *b"ABVDO", *b"SAVDM", *b"XXVDM"][(v >> 5) % 6];
+                if v & 3 == 3 {
+                    s.delim = b'$';
+                }
                 if zeros & 3 == 3 {
                     // numbers written with leading zeros
                     s.n.zeros = 1;
